@@ -324,7 +324,7 @@ func ruleAssoc(w *World, r *Report, funcPrec int64) {
 			return ""
 		}
 		c, ok := f.X.(*ssa.Call)
-		if !ok || c.Call.StaticCallee() == nil || c.Call.StaticCallee().Name() != "getInfixOpInfo" {
+		if !ok || c.Call.StaticCallee() == nil || nm(c.Call.StaticCallee()) != "getInfixOpInfo" {
 			return ""
 		}
 		arg := c.Call.Args[len(c.Call.Args)-1]
@@ -456,7 +456,7 @@ func ruleAssoc(w *World, r *Report, funcPrec int64) {
 					return
 				}
 				b, okb := c.Call.Value.(*ssa.Builtin)
-				if !okb || b.Name() != "copy" {
+				if !okb || nm(b) != "copy" {
 					return
 				}
 				dst, okd := c.Call.Args[0].(*ssa.MakeSlice)
